@@ -68,6 +68,7 @@ OpK(s)      == [k |-> "K", s |-> s]
 OpM(c, n)   == [k |-> "M", c |-> c, n |-> n]         \* self.put_variable(c, n, mapping) over the subtree of child scope n
 OpE(cl, n, t) == [k |-> "E", cl |-> cl, n |-> n, lift |-> t]      \* n = "" : automatic name; lift: nn.jit / nn.remat / identity nn.map_variables of the class
 OpN         == [k |-> "N"]                          \* Other.apply(vars, mutable=['intermediates']) of an unrelated module inside this method (a pure call)
+OpG(t)      == [k |-> "G", lift |-> t]               \* nn.remat(helper)(self): the ops up to the matching L run on *this* module inside the lift
 OpL(again)  == [k |-> "L", again |-> again]         \* return; again = TRUE: the parent calls the same instance once more
 
 VarCols == {"st", "stx"}
@@ -75,6 +76,7 @@ Alphabet == {OpP(n) : n \in Names} \cup {OpV(c, n) : c \in VarCols, n \in Names}
             \cup {OpM("st", n) : n \in Names}
             \cup {OpS(c) : c \in {"intermediates", "stx"}} \cup {OpT} \cup {OpN} \cup {OpK(s) : s \in Streams}
             \cup {OpE(cl, n, t) : cl \in Classes, n \in Names \cup {""}, t \in Lifts}
+            \cup {OpG(t) : t \in Lifts \cap {"remat"}}
             \cup {OpL(a) : a \in BOOLEAN}
 
 \* reduced alphabet for the separator-collision self-test (cfg: Alphabet <- AlphabetCollide)
@@ -262,10 +264,24 @@ DoE(cl, n, t) ==
           /\ status' = "run"
           /\ UNCHANGED <<vars, cols, draws>>
 
+\* a function-style lifted call on the running module itself: same scope, same names, same auto-name cursors - afterwards the
+\* module continues where the block left off (children created inside have taken their names)
+DoG(t) ==
+  /\ stack' = Append(stack, [Top EXCEPT !.start = ip + 1, !.second = FALSE, !.lift = "block"])
+  /\ Obs([k |-> "block"]) /\ status' = "run"
+  /\ UNCHANGED <<vars, cols, rngcnt, draws>>
+
 \* return from the current module call
 DoL(again) ==
   IF Len(stack) = 1
   THEN /\ status' = "returned" /\ Obs([k |-> "ret"]) /\ Keep
+  ELSE IF Top.lift = "block"
+       THEN \* end of a lifted block: back in the same module, which keeps the names / cursors / declarations made inside
+            /\ LET parent == stack[Len(stack) - 1]
+                   merged == [parent EXCEPT !.res = Top.res, !.auto = Top.auto, !.decl = Top.decl]
+               IN stack' = Append(SubSeq(stack, 1, Len(stack) - 2), merged)
+            /\ Obs([k |-> "endblock"]) /\ status' = "run"
+            /\ UNCHANGED <<vars, cols, rngcnt, draws>>
   ELSE IF again /\ ~Top.second
        THEN \* the parent calls the same child instance again: scope rewound (reservations and auto-name cursors
             \* reset, rng counters continue), the recorded body is replayed
@@ -295,6 +311,7 @@ Exec(op) ==
     [] op.k = "M" -> DoM(op.c, op.n)
     [] op.k = "N" -> DoN
     [] op.k = "E" -> DoE(op.cl, op.n, op.lift)
+    [] op.k = "G" -> DoG(op.lift)
     [] op.k = "L" -> DoL(op.again)
 
 (***************************************************************************)
@@ -313,8 +330,10 @@ Init == /\ phase = "init" /\ prog = <<>> /\ ip = 1
 \* grow mode: the next op is chosen freely, subject to well-formedness (depth, length, every frame can be closed)
 Depth == Len(stack) - 1
 CanGrow(op) ==
-  CASE op.k = "L" -> (op.again => Depth >= 1 /\ ~Top.second)
+  CASE op.k = "L" -> (op.again => Depth >= 1 /\ ~Top.second /\ Top.lift # "block")
     [] op.k = "E" -> Depth < MaxDepth /\ Len(prog) + 1 + (Depth + 1) + 1 <= MaxOps
+    [] op.k = "G" -> Depth < MaxDepth /\ Top.lift # "block" /\ Len(prog) + 1 + (Depth + 1) + 1 <= MaxOps
+    [] Top.lift = "block" -> FALSE            \* a block holds child modules only (variables declared inside a helper are the helper's)
     [] OTHER      -> Len(prog) + 1 + Depth + 1 <= MaxOps
 
 \* after an op: a Leave with again = TRUE of a frame in its first call jumps back to the frame's first op
